@@ -118,6 +118,7 @@ type Exec struct {
 type storedRef struct {
 	T   types.Type // struct type
 	Ref string
+	PC  string // path condition under which the write happened
 }
 
 type Options struct {
